@@ -277,6 +277,15 @@ class SymInt:
         else:
             k = max(_bitlen_bound(s.lo, s.hi), _bitlen_bound(lo, hi))
             r = (-(1 << k), (1 << k) - 1)
+        if lo == hi and lo > 0:
+            # constant mask m: all values of [s.lo, s.hi] agree on the bits >= j when s.lo >> j == s.hi >> j
+            # (>> is monotone).  j = lowest set bit of m: the result is a constant;  m = 2^k - 1 and j = k:
+            # the low k bits run through [s.lo & m, s.hi & m]  (exact interval refinements, no solver query)
+            j = (lo & -lo).bit_length() - 1
+            if (s.lo >> j) == (s.hi >> j):
+                return s.lo & lo
+            if (lo & (lo + 1)) == 0 and (s.lo >> lo.bit_length()) == (s.hi >> lo.bit_length()):
+                r = (s.lo & lo, s.hi & lo)
         # x & (2^k - 1): extract (keeps the terms small)
         if lo == hi and lo > 0 and (lo & (lo + 1)) == 0:
             k = lo.bit_length()
@@ -469,9 +478,16 @@ class SymInt:
         return s // o, s % o
 
     def __truediv__(s, o):
+        hook = getattr(ENG, "truediv_hook", None)      # opt-in: a harness may supply a model of int / int
+        if hook is not None:
+            return hook(s, o)
         raise SymbolicEscape("true division of a symbolic integer (float)")
 
-    __rtruediv__ = __truediv__
+    def __rtruediv__(s, o):
+        hook = getattr(ENG, "truediv_hook", None)
+        if hook is not None:
+            return hook(o, s)
+        raise SymbolicEscape("true division of a symbolic integer (float)")
 
     def __pow__(s, o, mod=None):
         if _is_int(o) and mod is None and 0 <= o <= 4:
